@@ -88,6 +88,14 @@ func main() {
 			fmt.Println("LOAD-ERROR", err)
 			os.Exit(2)
 		}
+		allKnown := map[string]bool{}
+		if fs, err := loadFindings(filepath.Join(*verif, "known_findings.json")); err == nil {
+			for _, f := range fs {
+				if f.Status == "finding" {
+					allKnown[f.Obligation] = true
+				}
+			}
+		}
 		ids := make([]string, 0, len(props))
 		for id := range props {
 			ids = append(ids, id)
@@ -108,7 +116,7 @@ func main() {
 					}
 				}
 				for _, o := range c.Obs {
-					if o.Verdict != OK {
+					if o.Verdict != OK && !allKnown[o.ID] {
 						fmt.Printf("%s %s at %s: %s\n", o.Verdict, o.ID, o.Site, o.Detail)
 					}
 				}
@@ -160,6 +168,14 @@ func main() {
 	if pm == nil {
 		fmt.Fprintf(os.Stderr, "unknown property %q\n", *prop)
 		os.Exit(2)
+	}
+	// the self-tests look at what a change adds: an obligation recorded as a known finding of the unchanged tree is not a report on the change
+	if fs, err := loadFindings(filepath.Join(*verif, "known_findings.json")); err == nil {
+		for _, f := range fs {
+			if f.Status == "finding" {
+				selfTestKnown[f.Obligation] = true
+			}
+		}
 	}
 	if *mutant != "" {
 		os.Exit(runMutant(*repo, *prop, pm, *mutant))
@@ -316,6 +332,8 @@ func loadVariant(repo, v string, overlay map[string][]byte) (*World, error) {
 // runMutant self-tests the rules of one property against one seeded breakage,
 // applied through a go/packages overlay. Exit codes: 0 detected, 3 skipped
 // (anchor text absent), 4 invalid (does not type-check), 5 missed.
+var selfTestKnown = map[string]bool{}
+
 func runMutant(repo, prop string, pm *propMeta, specPath string) int {
 	b, err := os.ReadFile(specPath)
 	if err != nil {
@@ -364,7 +382,7 @@ func runMutant(repo, prop string, pm *propMeta, specPath string) int {
 	}()
 	var hits, other []string
 	for _, o := range c.Obs {
-		if o.Verdict == OK {
+		if o.Verdict == OK || selfTestKnown[o.ID] {
 			continue
 		}
 		matched := false
@@ -464,7 +482,7 @@ func runSeedPatch(repo, prop string, pm *propMeta, patchPath string) int {
 	}()
 	var hits []string
 	for _, o := range c.Obs {
-		if o.Verdict != OK {
+		if o.Verdict != OK && !selfTestKnown[o.ID] {
 			hits = append(hits, o.ID)
 		}
 	}
